@@ -403,7 +403,9 @@ class Session:
                 rec['verdict'] = 'inconclusive'
             return True
         s = self._solver(E, pre)
-        s.add(z3.Or(*[X.zbool(g) for (g, m, w) in panics]))
+        # one query per group of panic sites (and per case of the split): each is small and targeted
+        groups = [panics[k:k + 6] for k in range(0, len(panics), 6)]
+        gcases = [z3.Or(*[X.zbool(g) for (g, m, w) in grp]) for grp in groups]
         if split:
             s2 = self._solver(E, pre)
             s2.add(z3.Not(z3.Or(*[X.zbool(c) for c in split])))
@@ -412,9 +414,11 @@ class Session:
                 self._record(oid, 'no_panic', desc, E, 'inconclusive', dt0)
                 self.inconclusive.append('%s: case split does not cover the precondition' % oid)
                 return False
-            r, dt = self._check(s, cases=split)
+            allcases = [z3.And(X.zbool(c), gc) for c in split for gc in gcases]
         else:
-            r, dt = self._check(s)
+            allcases = gcases
+        r, dt = self._check(s, cases=allcases)
+        extra['queries'] = len(allcases)
         if r == z3.unsat:
             rec = self._record(oid, 'no_panic', desc, E, 'holds', dt, extra)
             if not self._side_conditions(oid, E, pre, rec):
@@ -669,24 +673,17 @@ class DictModel:
         return self.d.items()
 
 
-def _solve_one(args):
-    smt, budget = args
+def _z3_variant(smt, budget, seed, arith, q, tag):
     import z3 as Z
-    plan = [(min(20, budget), 0, None), (min(20, budget), 1, 2), (min(40, budget), 2, None), (budget, 3, 6)]
-    spent = 0
-    for (to, seed, arith) in plan:
-        if spent >= budget:
-            break
+    try:
         ctx = Z.Context()
         s2 = Z.Solver(ctx=ctx)
-        s2.set('timeout', int(max(1, min(to, budget - spent)) * 1000))
+        s2.set('timeout', int(budget * 1000))
         s2.set('random_seed', seed)
         if arith is not None:
             s2.set('arith.solver', arith)
         s2.from_string(smt)
-        t1 = time.time()
         r0 = s2.check()
-        spent += time.time() - t1
         if r0 == Z.sat:
             m = s2.model()
             out = {}
@@ -700,23 +697,115 @@ def _solve_one(args):
                     out[d.name()] = False
                 elif Z.is_int_value(v):
                     out[d.name()] = v.as_long()
-            return ('sat', out)
-        if r0 == Z.unsat:
-            return ('unsat', None)
-    return ('unknown', None)
+            q.put((tag, 'sat', out))
+        elif r0 == Z.unsat:
+            q.put((tag, 'unsat', None))
+        else:
+            q.put((tag, 'unknown', None))
+    except Exception as e:          # pragma: no cover
+        q.put((tag, 'unknown', str(e)))
 
 
-_POOL = None
+def _cvc5_variant(smt, budget, q, tag):
+    """cvc5 1.0 on the same SMT-LIB text; only an `unsat` answer is used (no model parsing)"""
+    import tempfile
+    try:
+        with tempfile.NamedTemporaryFile('w', suffix='.smt2', delete=False, dir=CACHE) as fh:
+            fh.write('(set-logic ALL)\n' + smt)
+            path = fh.name
+        r = subprocess.run(['cvc5', '--lang', 'smt2', '--tlimit=%d' % int(budget * 1000), path], stdout=subprocess.PIPE,
+                           stderr=subprocess.PIPE, text=True, timeout=budget + 10)
+        out = (r.stdout or '').strip().split('\n')[0] if (r.stdout or '').strip() else ''
+        os.unlink(path)
+        if out == 'unsat' and '(error' not in (r.stdout + r.stderr):
+            q.put((tag, 'unsat', None))
+        else:
+            q.put((tag, 'unknown', None))
+    except Exception:
+        q.put((tag, 'unknown', None))
+
+
+VARIANTS = [('z3', 0, None), ('z3', 11, 2), ('cvc5', None, None), ('z3', 5, 6)]
 
 
 def solve_many(smts, budget):
-    global _POOL
-    if len(smts) == 1 and os.environ.get('VERIF_INPROC'):
-        return [_solve_one((smts[0], budget))]
-    if _POOL is None:
-        import multiprocessing as mp
-        _POOL = mp.get_context('spawn').Pool(int(os.environ.get('VERIF_JOBS', '8')))
-    return _POOL.map(_solve_one, [(x, budget) for x in smts])
+    """decide every SMT-LIB query with a parallel portfolio (z3 with different seeds / arithmetic
+    cores, cvc5 for unsat); each query runs in fresh processes so verdicts do not depend on history.
+    Returns [(verdict, model-dict or None)] with verdict in sat / unsat / unknown."""
+    import multiprocessing as mp
+    ctx = mp.get_context('fork')
+    maxproc = int(os.environ.get('VERIF_JOBS', '12'))
+    nvar = len(VARIANTS) if len(smts) * len(VARIANTS) <= 4 * maxproc else 2
+    q = ctx.Queue()
+    pending = []          # (query idx, variant idx)
+    for v in range(nvar):
+        for i in range(len(smts)):
+            pending.append((i, v))
+    running = {}          # tag -> (process, start)
+    result = [None] * len(smts)
+    unknowns = [0] * len(smts)
+    started = [None] * len(smts)
+
+    def launch(i, v):
+        kind, seed, arith = VARIANTS[v]
+        tag = (i, v)
+        if kind == 'z3':
+            p = ctx.Process(target=_z3_variant, args=(smts[i], budget, seed, arith, q, tag))
+        else:
+            p = ctx.Process(target=_cvc5_variant, args=(smts[i], budget, q, tag))
+        p.daemon = True
+        p.start()
+        running[tag] = (p, time.time())
+
+    def kill_query(i):
+        for tag in [t for t in running if t[0] == i]:
+            p, _ = running.pop(tag)
+            try:
+                p.kill()
+            except Exception:
+                pass
+    while (pending or running) and any(r is None for r in result):
+        while pending and len(running) < maxproc:
+            i, v = pending.pop(0)
+            if result[i] is None:
+                launch(i, v)
+        try:
+            tag, verdict, model = q.get(timeout=1.0)
+        except Exception:
+            # reap crashed / timed-out workers
+            now = time.time()
+            for tag in list(running):
+                p, t0 = running[tag]
+                if not p.is_alive() or now - t0 > budget + 30:
+                    running.pop(tag)
+                    try:
+                        p.kill()
+                    except Exception:
+                        pass
+                    i = tag[0]
+                    unknowns[i] += 1
+                    if result[i] is None and unknowns[i] >= nvar:
+                        result[i] = ('unknown', None)
+            continue
+        i = tag[0]
+        if tag in running:
+            running.pop(tag)[0].join(timeout=1)
+        if result[i] is not None:
+            continue
+        if verdict in ('sat', 'unsat'):
+            result[i] = (verdict, model)
+            kill_query(i)
+            pending[:] = [(a, b) for (a, b) in pending if a != i]
+        else:
+            unknowns[i] += 1
+            if unknowns[i] >= nvar:
+                result[i] = ('unknown', None)
+    for tag in list(running):
+        try:
+            running[tag][0].kill()
+        except Exception:
+            pass
+    return [r if r is not None else ('unknown', None) for r in result]
 
 
 class Inconclusive(Exception):
